@@ -23,6 +23,12 @@ def manager_models(pid, tier):
     st = mc.run_model("MC_Manager", "MC_Manager", cfg, consts, keep_out=True, timeout=3000)
     states = tlc.tagged_json(st.pop("out"), "EMIT")
     stats = [st]
+    if pid == "C03":
+        # the bucket assignment of one walk step for ALL integers (Apalache, inductive); the step operator
+        # is the one Manager.tla's Walk is built from (Buckets.tla)
+        import apa
+
+        stats += apa.walk_lemma()
     if pid == "C11":
         stats.append(mc.run_model("MC_Manager+HA_convindex_single_tag (must fail)", "MC_Manager",
                                   "MC_Manager_devHA.cfg", "as MC_Manager MaxLen=5, Dev={HA_convindex_single_tag}",
